@@ -221,6 +221,59 @@ pub fn reset_hwm() -> bool {
     std::fs::write("/proc/self/clear_refs", "5").is_ok()
 }
 
+/// Sequential walk over the msgpack payload the way a reader consumes it (marker by marker,
+/// schema-less).  Returns the first str/bin/ext header that announces at least `limit` bytes and
+/// more than remain in the input: `(offset, announced length)`.  rmp-serde's `ReadReader` resizes
+/// its buffer to the announced length before reading, so such an input allocates that much.
+/// The typed decoder may stop earlier with a type error, so this over-approximates.
+pub fn announced_overrun(bytes: &[u8], start: usize, limit: u64) -> Option<(usize, u64)> {
+    let mut i = start;
+    let n = bytes.len();
+    let be = |i: usize, k: usize| -> Option<u64> {
+        if i + k > n { return None; }
+        Some(bytes[i..i + k].iter().fold(0u64, |a, &b| a << 8 | b as u64))
+    };
+    while i < n {
+        let m = bytes[i];
+        let at = i;
+        i += 1;
+        let (skip, data): (usize, Option<u64>) = match m {
+            0x00..=0x7f | 0x80..=0x8f | 0x90..=0x9f | 0xc0 | 0xc2 | 0xc3 | 0xe0..=0xff => (0, None),
+            0xa0..=0xbf => (0, Some((m & 0x1f) as u64)),
+            0xc1 => return None,
+            0xc4 | 0xd9 => (1, Some(be(i, 1)?)),
+            0xc5 | 0xda => (2, Some(be(i, 2)?)),
+            0xc6 | 0xdb => (4, Some(be(i, 4)?)),
+            0xc7 => (2, Some(be(i, 1)?)),
+            0xc8 => (3, Some(be(i, 2)?)),
+            0xc9 => (5, Some(be(i, 4)?)),
+            0xca | 0xce | 0xd2 => (4, None),
+            0xcb | 0xcf | 0xd3 => (8, None),
+            0xcc | 0xd0 => (1, None),
+            0xcd | 0xd1 => (2, None),
+            0xd4 => (2, None),
+            0xd5 => (3, None),
+            0xd6 => (5, None),
+            0xd7 => (9, None),
+            0xd8 => (17, None),
+            0xdc | 0xde => (2, None),
+            0xdd | 0xdf => (4, None),
+        };
+        i += skip;
+        if let Some(l) = data {
+            let remaining = n.saturating_sub(i) as u64;
+            if l > remaining {
+                if l >= limit {
+                    return Some((at, l));
+                }
+                return None; // the reader hits EOF here
+            }
+            i += l as usize;
+        }
+    }
+    None
+}
+
 pub fn hex(b: &[u8]) -> String {
     let mut o = String::with_capacity(b.len() * 2);
     for x in b {
